@@ -1,16 +1,19 @@
 ------------------------------ MODULE FFSM2MC ------------------------------
 (* Model-checking wrapper: the environment (API calls, callback decisions) is *)
 (* an explicit \E over bounded sets given by the configuration.               *)
-EXTENDS FFSM2
+EXTENDS Monitors
 
 CONSTANTS
     EnvOps,      \* set of API operation records offered by the environment
     EnvActs,     \* set of act records callbacks may perform
     MaxActs      \* maximum number of acts per callback delivery
 
-VARIABLES st, out
+VARIABLES st, out,
+          tk, bad       \* monitors folded over the events of the behaviour (ghost)
 
-vars == <<st, out>>
+vars == <<st, out, tk, bad>>
+
+CONSTANT WithMonitors   \* fold the monitors (costs states); FALSE keeps tk/bad constant
 
 Tau == [e |-> "tau"]
 
@@ -19,7 +22,11 @@ ActSeqs(kind, sid) ==
     {<<>>} \cup (IF MaxActs >= 1 THEN {<<a>> : a \in legal} ELSE {})
            \cup (IF MaxActs >= 2 THEN {<<a, b>> : a \in legal, b \in legal} ELSE {})
 
-Init == st = InitSt /\ out = Tau
+Init == st = InitSt /\ out = Tau /\ tk = TkInit /\ bad = {}
+
+Fold == IF WithMonitors
+        THEN LET tk2 == TkStep(tk, out') IN tk' = tk2 /\ bad' = bad \cup Checks(tk, out', tk2)
+        ELSE UNCHANGED <<tk, bad>>
 
 DoCall == /\ Idle(st)
           /\ \E o \in EnvOps :
@@ -37,12 +44,14 @@ DoInternal == /\ AtInternal(st)
               /\ st' = Internal(st)
               /\ out' = Tau
 
-Next == DoCall \/ DoCb \/ DoRet \/ DoInternal
+Next == (DoCall \/ DoCb \/ DoRet \/ DoInternal) /\ Fold
 
 Spec == Init /\ [][Next]_vars
 FairSpec == Spec /\ WF_vars(DoCb \/ DoRet \/ DoInternal)
 
-StView == st
+StView == <<st, tk, bad>>
+
+MonitorsQuiet == bad = {}
 
 NoInj == [i \in 1 .. (N + 1) |-> 0]
 AllDef == [i \in 1 .. (N + 1) |-> 32766]
